@@ -160,6 +160,7 @@ def build_world(script):
     from happysimulator.core.sim_future import all_of, any_of
     from happysimulator.core.temporal import Instant
 
+    script = dict({"pre": [], "start": 0, "end": None, "fuel": 100}, **script)
     w = World(script)
     w.keep = []
     sim_clock = [None]
@@ -243,21 +244,21 @@ def build_world(script):
                         got = yield s[1], effs[0]
                     else:
                         got = yield s[1], effs
-                    w.ulog.append(["resume", self.now.nanoseconds, pid, val_json(got)])
+                    w.ulog.append(["resume", self.now.nanoseconds, pid, val_json(got), self.idx])
                 elif s[0] == "wait":
                     w.rlog.append(["wait", len(w.rlog), self.now.nanoseconds, pid, s[1]])
                     got = yield eval_f(s[1])
-                    w.ulog.append(["resume", self.now.nanoseconds, pid, val_json(got)])
+                    w.ulog.append(["resume", self.now.nanoseconds, pid, val_json(got), self.idx])
                 elif s[0] == "eff":
                     do_eff(s[1])
                 elif s[0] == "sub":
                     yield from self._steps(pid, s[1])
 
         def _process(self, pid, steps, ret):
-            w.ulog.append(["resume", self.now.nanoseconds, pid, ["none"]])
+            w.ulog.append(["resume", self.now.nanoseconds, pid, ["none"], self.idx])
             yield from self._steps(pid, steps)
             out = [mk_event(self.now.nanoseconds, e) for e in ret]
-            w.ulog.append(["finish", self.now.nanoseconds, pid])
+            w.ulog.append(["finish", self.now.nanoseconds, pid, self.idx])
             return out
 
     for i, table in enumerate(script["prog"]):
